@@ -387,7 +387,7 @@ def main():
         chk.add_tlc("MC_CacheConc_neg_nocatch", rn, expect_violation=True)
         if rn.ok:
             raise MachineryError("negative control MC_CacheConc_neg_nocatch was not violated")
-        for neg in ("MC_Cache_neg_key", "MC_Cache_neg_halo", "MC_Cache_neg_crash"):
+        for neg in ("MC_Cache_neg_key", "MC_Cache_neg_halo", "MC_Cache_neg_crash", "MC_Cache_neg_key_lemma", "MC_Cache_neg_halo_lemma"):
             rn = run_tlc("Cache", neg)
             chk.add_tlc(neg, rn, expect_violation=True)
             if rn.ok:
